@@ -179,7 +179,106 @@ func runC19(e *Engine, r *Report) {
 			r.check(okd, "DEP-stable-ack", "UpdateCommit."+f.Name()+" derives from Update.EntriesToSave", e.pos(guc.Pos()),
 				"the saved-to acknowledgement is the last entry of what was handed out for persistence", "the saved-to acknowledgement no longer derives from EntriesToSave")
 		}
+		// ---- the returned-for-apply ack covers the committed entries of the
+		// same Update: some store of Processed derives from CommittedEntries,
+		// and every store that may come after it on a path still does
+		// (field-sensitively: through the previous value of Processed), so a
+		// later branch cannot replace it by something that forgets them.
+		uCommitted := e.Field("raftpb", "Update", "CommittedEntries")
+		processedF := e.Field("raftpb", "UpdateCommit", "Processed")
+		if uCommitted == nil || processedF == nil {
+			r.undecided("ANCHOR", "raftpb.Update.CommittedEntries/UpdateCommit.Processed", "anchored field no longer resolves")
+		} else {
+			var stores []*ssa.Store
+			forEachInstr(guc, func(in ssa.Instruction) {
+				if s, ok := in.(*ssa.Store); ok {
+					if ff, _, ok := fieldOfAddr(s.Addr); ok && ff == processedF {
+						stores = append(stores, s)
+					}
+				}
+			})
+			derives := func(s *ssa.Store) bool {
+				return e.dependsOn(s.Val, func(v ssa.Value) bool { return fieldV(uCommitted)(v) }, 0)
+			}
+			var first []*ssa.Store
+			for _, s := range stores {
+				if derives(s) {
+					first = append(first, s)
+				}
+			}
+			r.check(len(first) > 0, "DEP-processed-ack", "UpdateCommit.Processed derives from Update.CommittedEntries", e.pos(guc.Pos()),
+				"the processed acknowledgement is the last entry handed out for apply", "the processed acknowledgement no longer derives from CommittedEntries")
+			for i, s := range stores {
+				if derives(s) {
+					continue
+				}
+				// s forgets the committed entries: it must not be reachable after a deriving store
+				after := false
+				for _, f := range first {
+					if f.Block() == s.Block() && instrIndex(f) < instrIndex(s) {
+						after = true
+					} else if f.Block() != s.Block() && blockReaches(f.Block(), s.Block()) {
+						after = true
+					}
+				}
+				r.check(!after, "DEP-processed-ack", "store #"+itoa(i+1)+" of UpdateCommit.Processed keeps the committed entries' index", e.ipos(s),
+					"no later store overrides the committed-entries acknowledgement", "Processed is overwritten by a value that ignores the CommittedEntries of the same Update: entries already handed out for apply would be handed out again")
+			}
+		}
 	}
+	// ---- restore rebases the in-memory log on the snapshot alone: no cursor
+	// keeps (a function of) its previous value
+	if rs := r.need("(*internal/raft.inMemory).restore"); rs != nil {
+		isOldState := func(v ssa.Value) bool {
+			f, _, ok := loadedField(v)
+			if !ok {
+				return false
+			}
+			for i := 0; i < st.NumFields(); i++ {
+				if st.Field(i) == f {
+					return true
+				}
+			}
+			return false
+		}
+		cnt := 0
+		for _, fn := range []string{"markerIndex", "savedTo", "appliedToIndex", "appliedToTerm"} {
+			fld := e.Field("internal/raft", "inMemory", fn)
+			if fld == nil {
+				continue
+			}
+			for _, w := range e.FieldWrites(fld) {
+				if w.Fn != rs || w.Val == nil {
+					continue
+				}
+				cnt++
+				fromSS := e.dependsOn(w.Val, func(v ssa.Value) bool { p, ok := v.(*ssa.Parameter); return ok && p.Parent() == rs && p.Name() != "im" }, 0)
+				r.check(fromSS && !e.dependsOn(w.Val, isOldState, 0), "DEP-restore-rebase", "inMemory."+fn+" in restore is a function of the snapshot only", e.ipos(w.Instr),
+					"the cursor is rebased on the snapshot", "restore keeps (a function of) the previous "+fn+": a stale cursor survives the rebase, e.g. entries re-appended after the snapshot are considered saved/applied")
+			}
+		}
+		r.floor("DEP-restore-rebase", cnt, 4)
+	}
+}
+
+// blockReaches: is b reachable from a (a != b) in the CFG?
+func blockReaches(a, b *ssa.BasicBlock) bool {
+	seen := map[*ssa.BasicBlock]bool{}
+	st := []*ssa.BasicBlock{a}
+	for len(st) > 0 {
+		x := st[len(st)-1]
+		st = st[:len(st)-1]
+		for _, s := range x.Succs {
+			if s == b {
+				return true
+			}
+			if !seen[s] {
+				seen[s] = true
+				st = append(st, s)
+			}
+		}
+	}
+	return false
 }
 
 // isAppendTo: v is append(x, ...) where x matches base (possibly via slice ops).
